@@ -28,6 +28,14 @@ N1 == NFromInt(1)
 Zero4  == <<N0, N0, N0, N0>>
 Zero10 == <<N0, N0, N0, N0, N0, N0, N0, N0, N0, N0>>
 
+\* scalar elementary functions with magnitude propagation (mag = |f| + |f'| mag(a))
+NExp(a)  == LET e == NExpL(a) IN NFun(e, e, a)
+NLog(a)  == NFun(NLogL(a), NLeaf(NDiv(N1, NLeaf(a))), a)
+NSqrt(a) == LET s == NSqrtL(a) IN NFun(s, NLeaf(NDiv(N1, NMul(NFromInt(2), s))), a)
+NPow(a, b) == LET x == NLeaf(a) bl == NLeaf(b)
+              IN  NFun(NPowL(x, bl), NLeaf(NMul(bl, NPowL(x, NSub(bl, N1)))), a)
+NSq(a)   == NMul(a, a)
+
 JV(a) == a[1]                       \* value
 JG(a, i) == a[2][i]                 \* d/dx_i
 JH(a, i, j) == a[3][HK(i, j)]       \* d2/dx_i dx_j
@@ -58,30 +66,32 @@ JMul(a, b) ==
       H(k) == NAdd(NAdd(NMul(a[3][k], b[1]), NMul(a[1], b[3][k])),
                    NAdd(NMul(a[2][HI[k]], b[2][HJ[k]]), NMul(a[2][HJ[k]], b[2][HI[k]])))
   IN  <<NMul(a[1], b[1]), Map4(G), Map10(H)>>
-\* chain rule: f(a) where f0 = f(val a), f1 = f'(val a), f2 = f''(val a) are leaf numbers
-JChain(a, f0, f1, f2) ==
-  LET G(i) == NMul(f1, a[2][i])
-      H(k) == NAdd(NMul(f1, a[3][k]), NMul(f2, NMul(a[2][HI[k]], a[2][HJ[k]])))
+\* chain rule: f(a) where f0 = f(val a) and f1, f2, f3 the first three derivatives of f at val a are leaf
+\* numbers.  The derivative factors carry the conditioning of the argument too (mag |f_k| + |f_k+1| mag(a)):
+\* near a zero of a derivative of f the rounding error of the argument dominates.
+JChain(a, f0, f1, f2, f3) ==
+  LET d1 == NFun(f1, f2, a[1])
+      d2 == NFun(f2, f3, a[1])
+      G(i) == NMul(d1, a[2][i])
+      H(k) == NAdd(NMul(d1, a[3][k]), NMul(d2, NMul(a[2][HI[k]], a[2][HJ[k]])))
   IN  <<NFun(f0, f1, a[1]), Map4(G), Map10(H)>>
 
-JSin(a) == LET s == NSinL(a[1]) c == NCosL(a[1]) IN JChain(a, s, c, NNeg(s))
-JCos(a) == LET s == NSinL(a[1]) c == NCosL(a[1]) IN JChain(a, c, NNeg(s), NNeg(c))
-JExp(a) == LET e == NExpL(a[1]) IN JChain(a, e, e, e)
-JLog(a) == LET x == NLeaf(a[1]) r == NLeaf(NDiv(N1, x)) IN JChain(a, NLogL(a[1]), r, NNeg(NMul(r, r)))
-JSqrt(a) == LET s == NSqrtL(a[1]) x == NLeaf(a[1])
-                f1 == NLeaf(NDiv(N1, NMul(NFromInt(2), s)))
-            IN  JChain(a, s, f1, NNeg(NLeaf(NDiv(f1, NMul(NFromInt(2), x)))))
+JSin(a) == LET s == NSinL(a[1]) c == NCosL(a[1]) IN JChain(a, s, c, NNeg(s), NNeg(c))
+JCos(a) == LET s == NSinL(a[1]) c == NCosL(a[1]) IN JChain(a, c, NNeg(s), NNeg(c), s)
+JExp(a) == LET e == NExpL(a[1]) IN JChain(a, e, e, e, e)
+JLog(a) == LET x == NLeaf(a[1]) r == NLeaf(NDiv(N1, x)) r2 == NLeaf(NMul(r, r))
+           IN  JChain(a, NLogL(a[1]), r, NNeg(r2), NLeaf(NMul(NFromInt(2), NMul(r2, r))))
 \* a^b for a number b (any real exponent; a > 0 unless b is an integer)
 JPow(a, b) ==
   LET x  == NLeaf(a[1])
       bl == NLeaf(b)
       b1 == NSub(bl, N1)
       b2 == NSub(bl, NFromInt(2))
-  IN  JChain(a, NPowL(x, bl), NLeaf(NMul(bl, NPowL(x, b1))), NLeaf(NMul(NMul(bl, b1), NPowL(x, b2))))
-JRecip(a) == LET x == NLeaf(a[1])
-                 r == NLeaf(NDiv(N1, x))
-                 r2 == NLeaf(NMul(r, r))
-             IN  JChain(a, r, NNeg(r2), NLeaf(NMul(NFromInt(2), NMul(r2, r))))
+      b3 == NSub(bl, NFromInt(3))
+  IN  JChain(a, NPowL(x, bl), NLeaf(NMul(bl, NPowL(x, b1))), NLeaf(NMul(NMul(bl, b1), NPowL(x, b2))),
+             NLeaf(NMul(NMul(NMul(bl, b1), b2), NPowL(x, b3))))
+JSqrt(a) == JPow(a, NFromRat(1, 2))
+JRecip(a) == JPow(a, NNeg(N1))
 JDiv(a, b) == JMul(a, JRecip(b))
 JSq(a) == JMul(a, a)
 
